@@ -519,7 +519,7 @@ impl<W: io::Write> JSON<W> {
         } else {
             json::to_writer(&mut self.wtr, message)?;
         }
-        self.wtr.write(&[b'\n'])?;
+        self.wtr.write_all(&[b'\n'])?;
         Ok(())
     }
 }
